@@ -42,20 +42,25 @@ RULE = (
     "least one invariance dimension (co-scored plates of unequal size i.e. real padding, non-sorted plate order, "
     "non-identity relabelling, non-identity experiment order, non-default triple order, >1 scorer sub-group, or a "
     "mix of zero and positive triple distances); distinct class = (entry point, n, multiset of plate sizes, value "
-    "family, set of dimensions exercised).  Outcome = (entry point, score to 7 significant digits)."
+    "family, set of dimensions exercised); in the smallest-shape product a case counts when means and variances are "
+    "not constant and some distance is positive, class = (rank pattern of the means, of the variances, zero pattern "
+    "of the distances).  Outcome = (entry point, score to 7 significant digits)."
 )
 BOUNDS = {
     "quick": {"n_thetas": [3, 4, 5], "plate_sizes": [1, 2, 3], "max_plates": 3, "plate_orders": "all k!",
               "relabellings": "all n! for n<=5", "experiment_orders": "full product over plates (<=216)",
-              "max_chunk": [1, 2, 50], "rng_tree": "complete for n=3 (1 leaf) and n=4 (24 leaves per kernel call, "
-              "scorer: complete up to 2 kernel calls = 576 leaves); n=5: default + reversed order",
+              "max_chunk": [1, 2, 50], "rng_tree": "array entry points: complete for n=3 (1 leaf) and n=4 (24 leaves) on every multiset and "
+              "family; scorer n=4: complete for 1 kernel call (24 leaves, every multiset) and for 2 kernel calls (576 "
+              "leaves, multisets of pairwise distinct sizes), families graded and onepair, sorted plate order; "
+              "everywhere else (and n=5) the default answer plus the fully reversed triple order",
               "smallest_shape_product": "means {-1,0,2}^3 x variances {1e-3,1,1e3}^3 x distances {0,1,3}^3 = 19683",
               "value_families": 6, "max_combos": "C(n,3) and 5000 (both >= C(n,3))", "distance_factor": 1.0},
     "thorough": {"n_thetas": [3, 4, 5, 6, 7], "plate_sizes": [1, 2, 3, 4], "max_plates": 4, "plate_orders": "all k!",
                  "relabellings": "all n! for n<=5; identity, reversal, rotation, one swap for n=6,7",
                  "experiment_orders": "full product over plates when <= 576, otherwise every order of one plate at a "
                  "time with the others unpermuted",
-                 "max_chunk": [1, 2, 3, 50], "rng_tree": "as quick; n>=5: default + reversed order",
+                 "max_chunk": [1, 2, 3, 50], "rng_tree": "as quick, and the scorer 2-call tree on every multiset with <= 3 plates; "
+                 "n>=5: default + fully reversed triple order",
                  "smallest_shape_product": "19683 cases x 2 wrappers", "value_families": 6,
                  "max_combos": "C(n,3) and 5000", "distance_factor": 1.0},
 }
@@ -74,8 +79,9 @@ ASSUMPTIONS = [
     "the scorer is driven with stub Theta objects whose conditional mean / variance are a table keyed by "
     "(sample id, treatment ids) of the rows asked about; real Screen/Plate, ThetaHolder, ChunkedDistanceMatrix",
     "an exception raised inside batchie on these well-formed inputs is a violation (the statement promises a value)",
-    "measured on the unchanged tree: max |kernel - reference| / (1 + |reference|) over the thorough tier is ~1e-15 "
-    "(no cancellation problem on the extreme-variance or huge-gap families), so 1e-9 is not tight",
+    "measured on the unchanged tree (426 196 calls of the thorough tier, all families): max |score - reference| / "
+    "(1 + |reference|) = 5.5e-16, also on the extreme-variance and huge-gap families (no cancellation problem), so "
+    "rtol=atol=1e-9 is far from tight and was not loosened",
 ]
 
 RTOL = 1e-9
@@ -417,9 +423,11 @@ def plan(tier, seed):
             items.append({"kind": "rngtree", "n": n, "family": fam})
             if tier == "thorough":
                 for k in range(1, tp["max_plates"] + 1):
-                    items.append({"kind": "scorer", "n": n, "family": fam, "k": k})
+                    parts = 1 if k <= 2 else (8 if (k == 4 or n == 4) else 2)
+                    for part in range(parts):
+                        items.append({"kind": "scorer", "n": n, "family": fam, "k": k, "part": part, "parts": parts})
             else:
-                items.append({"kind": "scorer", "n": n, "family": fam, "k": 0})
+                items.append({"kind": "scorer", "n": n, "family": fam, "k": 0, "part": 0, "parts": 1})
     return items
 
 
@@ -554,9 +562,8 @@ def run_item(item, col, tier):
                         check_case(case, col, Chooser(choices), base.expected(entry), _dims(base, order))
     elif kind == "scorer":
         kk = item["k"]
-        for sizes in msets:
-            if kk and len(sizes) != kk:
-                continue
+        mine = [sizes for sizes in msets if not kk or len(sizes) == kk]
+        for sizes in mine[item["part"]::item["parts"]]:
             base = Base(n, fam, sizes)
             k = len(sizes)
             for oi, order in enumerate(itertools.permutations(range(k))):
@@ -568,7 +575,7 @@ def run_item(item, col, tier):
                     mc = 5000 if (oi + chunk) % 2 else math.comb(n, 3)
                     case = base.case("scorer", order=order, max_combos=mc, max_chunk=chunk)
                     if n == 4 and calls <= 2 and oi == 0 and fam in ("graded", "onepair") and (
-                            calls == 1 or tier == "thorough" or len(set(sizes)) == k):
+                            calls == 1 or (tier == "thorough" and k <= 3) or len(set(sizes)) == k):
                         _full_tree(case, col, base, order, chunks=calls)
                     else:
                         for choices in ((), reversed_choices(case)) if n > 3 else ((),):
